@@ -249,7 +249,7 @@ func init() {
 			"oracles: Handler.Enabled == logger gate (base and derived); Handle emits exactly one record at the logger's own destination (nothing on fds 1/2, which are redirected); the decoded record (C04/C05/C06 decoders) has the message, the record's own time, the namesake severity and the expected attribute tree (attributes given after WithGroup nested under it); a log/slog.Logger on the handler emits iff the logger admits. " +
 			"bridge: all (8 logger levels x 8 bridge severities) pairs x Print/Printf/Println/Output x hostile messages with 0-2 trailing newlines: one record iff the logger admits the severity, message == std-log line minus its trailing newline, level == bridge severity. " +
 			"conc: 2-16 goroutines log through ONE derived handler (WithAttrs/WithGroup chain of depth 1-3), with and without the race detector: every record carries its own attributes under the groups, none is lost. levelsweep: production child processes run Entry.Log for every log/slog level in -40..40 (only LevelFatal / LevelPanic may terminate; the four standard levels are recorded under their namesakes). non-trivial = decoded and matched record / judged pair; distinct = by payload or pair",
-		Assumptions: []string{"records carry a non-zero time", "attributes bound to the underlying logger itself are not generated (the statement does not say whether a handler shows them)", "an open group always receives at least one attribute (log/slog elides empty groups)"},
+		Assumptions: []string{"attributes bound to the underlying logger itself are not generated (the statement does not say whether a handler shows them)", "an open group always receives at least one attribute (log/slog elides empty groups)"},
 		Floors:      map[string]int64{"records_decoded": 300, "derived_handler_records": 100, "enabled_compared": 1000, "bridge_calls": 500, "bridge_records_decoded": 100, "concurrent_handler_records": 5000, "levels_returned_normally": 79, "explicit_terminations_observed": 2},
 		Jobs: func(tier string, seed int64) []Job {
 			js := chunk("handler", "prod", pick(tier, 24000, 200000), pick(tier, 2000, 12500), Job{Timeout: 30 * time.Minute})
@@ -265,7 +265,7 @@ func init() {
 		Level: "exploration",
 		Rule: "cases = (instant: year 1-9999, every sub-second pattern, 6 fixed offsets incl. odd minutes + 5 named zones from the embedded tzdata; all 8 date/time/microseconds flag combinations x LlocalTime on/off; UTC mode unset / false / true; no logger layout or one of 14 custom layouts; json/logfmt/color) logged through WriteThru with that instant; " +
 			"the timestamp text is extracted from the record and must equal instant.In(zone).Format(layout) with zone = UTC iff UTC mode or (unset and LlocalTime clear), layout = the logger's, else the documented table for the flags (any exported layout for the two combinations the table does not list); layouts with full date, time and numeric zone must parse back to the instant truncated to the layout's precision. non-trivial = matched timestamp; distinct = by (text, layout, format)",
-		Assumptions: []string{"Go's time.Format/time.Parse (go1.23.5) as the reference for layouts"},
+		Assumptions: []string{"Go's time.Format/time.Parse (go1.23.5) as the reference for layouts", "SetTimeFormat given several layouts: the last non-empty one is the logger's layout (how the variadic setter is written)"},
 		Floors:      map[string]int64{"timestamps_extracted": 1000, "parsed_back": 100},
 		Jobs: func(tier string, seed int64) []Job {
 			return chunk("ts", "prod", pick(tier, 48000, 500000), pick(tier, 3000, 16000), Job{Timeout: 30 * time.Minute})
